@@ -16,6 +16,11 @@ import (
 
 func init() {
 	register(&PropertyCheck{ID: "C10", Level: "other", Run: checkC10, Canaries: []Canary{
+		{Name: "rf7-generic-fillprop-helper", Silent: true, Edits: []Edit{{"wiretypes.go", "// firstByte represents the first byte in a control packet.\ntype firstByte byte\n\n// String returns a readable string TYPEFLAGS, e.g. PUBLISH d1-r\nfunc (f firstByte) String() string {\n\tvar sb strings.Builder\n\tsb.WriteString(typeNames[byte(f)&0b1111_0000])\n\tsb.WriteString(\" \")\n\tflags := []byte(\"----\")\n\tif bits(f).Has(DUP) {\n\t\tflags[0] = 'd'\n\t}\n\tswitch {\n\tcase bits(f).Has(QoS3):\n\t\tflags[1] = '!' // malformed\n\t\tflags[2] = '!' // malformed\n\tcase bits(f).Has(QoS1):\n\t\tflags[2] = '1'\n\tcase bits(f).Has(QoS2):\n\t\tflags[1] = '2'\n\t}\n\tif bits(f).Has(RETAIN) {\n\t\tflags[3] = 'r'\n\t}\n\tsb.Write(flags)\n\treturn sb.String()\n}\n\n// https://docs.oasis-open.org/mqtt/mqtt/v5.0/os/mqtt-v5.0-os.html#_Toc3901013\ntype UserProp [2]string\n\nfunc (v UserProp) fillProp(data []byte, i int, id Ident) int {\n\tif len(v[0]) == 0 {\n\t\treturn 0\n\t}\n\tn := i\n\ti += id.fill(data, i)\n\ti += v.fill(data, i)\n\treturn i - n\n}\nfunc (v UserProp) fill(data []byte, i int) int {\n\ti += wstring(v[0]).fill(data, i)\n\t_ = wstring(v[1]).fill(data, i)\n\treturn v.width()\n}\n\nfunc (v *UserProp) UnmarshalBinary(data []byte) error {\n\tvar key wstring\n\tif err := key.UnmarshalBinary(data); err != nil {\n\t\treturn unmarshalErr(v, \"key\", err.(*Malformed))\n\t}\n\tv[0] = string(key)\n\n\ti := len(v[0]) + 2\n\tvar val wstring\n\tif err := val.UnmarshalBinary(data[i:]); err != nil {\n\t\treturn unmarshalErr(v, \"value\", err.(*Malformed))\n\t}\n\tv[1] = string(val)\n\treturn nil\n}\nfunc (v UserProp) String() string {\n\treturn fmt.Sprintf(\"%s:%s\", v[0], v[1])\n}\nfunc (v UserProp) width() int {\n\treturn wstring(v[0]).width() + wstring(v[1]).width()\n}\n\n// https://docs.oasis-open.org/mqtt/mqtt/v5.0/os/mqtt-v5.0-os.html#_Toc3901010\ntype wstring = bindata\n\n// https://docs.oasis-open.org/mqtt/mqtt/v5.0/os/mqtt-v5.0-os.html#_Toc3901012\ntype bindata []byte\n\nfunc (v bindata) fillProp(data []byte, i int, id Ident) int {\n\tif len(v) == 0 {\n\t\treturn 0\n\t}\n\tn := i\n\ti += id.fill(data, i)\n\ti += v.fill(data, i)\n\treturn i - n\n}\nfunc (v bindata) fill(data []byte, i int) int {\n\tif len(data) >= i+v.width() {\n\t\ti += wuint16(len(v)).fill(data, i)\n\t\tcopy(data[i:], []byte(v))\n\t}\n\treturn v.width()\n}\n\nfunc (v *bindata) UnmarshalBinary(data []byte) error {\n\tif len(data) < 2 {\n\t\treturn unmarshalErr(v, \"\", \"missing data\")\n\t}\n\tlength := int(binary.BigEndian.Uint16(data))\n\tif len(data) < length+2 {\n\t\treturn unmarshalErr(v, \"\", \"missing data\")\n\t}\n\tif length == 0 {\n\t\treturn nil\n\t}\n\t*v = make([]byte, length)\n\tcopy(*v, data[2:length+2])\n\treturn nil\n}\n\nfunc (v bindata) width() int {\n\treturn 2 + len(v)\n}\n\ntype rawdata []byte\n\nfunc (v *rawdata) UnmarshalBinary(data []byte) error {\n\t*v = make([]byte, len(data))\n\tcopy(*v, data)\n\treturn nil\n}\nfunc (v rawdata) fill(data []byte, i int) int {\n\tif len(data) >= i+v.width() {\n\t\treturn copy(data[i:], []byte(v))\n\t}\n\treturn v.width()\n}\nfunc (v rawdata) width() int {\n\treturn len(v)\n}\n\n// fillProp is here to fullfill the wireType interface, though it\n// cannot be used as a property as the length is not written. fillProp\n// always panics.\nfunc (v rawdata) fillProp(data []byte, i int, id Ident) int {\n\tpanic(\"cannot use rawdata as property\")\n}\n\n// https://docs.oasis-open.org/mqtt/mqtt/v5.0/os/mqtt-v5.0-os.html#_Toc3901011\ntype vbint uint\n\nfunc (v vbint) fillProp(data []byte, i int, id Ident) int {\n\tif v == 0 {\n\t\treturn 0\n\t}\n\tn := i\n\ti += id.fill(data, i)\n\ti += v.fill(data, i)\n\treturn i - n\n}\n\nfunc (v vbint) fill(data []byte, i int) int {\n\tx := v\n\tn := i\n\tfor {\n\t\tencodedByte := byte(x % 128)\n\t\tx = x / 128\n\t\tif x > 0 {\n\t\t\tencodedByte = encodedByte | 128\n\t\t}\n\t\tif i < len(data) {\n\t\t\tdata[i] = encodedByte\n\t\t}\n\t\ti++\n\t\tif x == 0 {\n\t\t\tbreak\n\t\t}\n\t}\n\treturn i - n\n}\n\nfunc (v vbint) width() int {\n\treturn v.fill(_LEN, 0)\n}\n\nfunc (v *vbint) ReadFrom(r io.Reader) (int64, error) {\n\tvar multiplier uint = 1\n\tvar value uint\n\tdata := make([]byte, 1)\n\tvar i int64\n\tfor {\n\t\tif _, err := io.ReadFull(r, data); err != nil {\n\t\t\treturn i, err\n\t\t}\n\t\ti++\n\t\tencodedByte := data[0]\n\t\tvalue += uint(encodedByte) & uint(127) * multiplier\n\t\tif multiplier > 128*128*128 {\n\t\t\treturn i, unmarshalErr(v, \"\", \"size exceeded\")\n\t\t}\n\t\tif encodedByte&128 == 0 {\n\t\t\tbreak\n\t\t}\n\t\tmultiplier = multiplier * 128\n\t}\n\t*v = vbint(value)\n\treturn i, nil\n}\n\n// UnmarshalBinary data, returns nil or *Malformed error\nfunc (v *vbint) UnmarshalBinary(data []byte) error {\n\tif len(data) == 0 {\n\t\treturn unmarshalErr(v, \"\", \"missing data\")\n\t}\n\tvar multiplier uint = 1\n\tvar value uint\n\tfor _, encodedByte := range data {\n\t\tvalue += uint(encodedByte) & uint(127) * multiplier\n\t\tif multiplier > 128*128*128 {\n\t\t\treturn unmarshalErr(v, \"\", \"size exceeded\")\n\t\t}\n\t\tif encodedByte&128 == 0 {\n\t\t\t*v = vbint(value)\n\t\t\treturn nil\n\t\t}\n\t\tmultiplier = multiplier * 128\n\t}\n\treturn unmarshalErr(v, \"\", \"missing data\")\n}\n\n// wire types\ntype (\n\twuint8 = bits // byte\n)\n\ntype wbool bool\n\nfunc (v wbool) fillProp(data []byte, i int, id Ident) int {\n\tif !v {\n\t\treturn 0\n\t}\n\tn := i\n\ti += id.fill(data, i)\n\ti += v.fill(data, i)\n\treturn i - n\n}\nfunc (v wbool) fill(data []byte, i int) int {\n\tif len(data) >= i+1 {\n\t\tif v {\n\t\t\tdata[i] = 0x01\n\t\t} else {\n\t\t\tdata[i] = 0x00\n\t\t}\n\t}\n\treturn 1\n}\nfunc (v *wbool) UnmarshalBinary(data []byte) error {\n\tif len(data) < 1 {\n\t\treturn ErrMissingData\n\t}\n\tswitch data[0] {\n\tcase 0:\n\t\t*v = wbool(false)\n\tcase 1:\n\t\t*v = wbool(true)\n\tdefault:\n\t\treturn fmt.Errorf(\"malformed bool\")\n\t}\n\treturn nil\n}\nfunc (v wbool) width() int { return 1 }\n\n// https://docs.oasis-open.org/mqtt/mqtt/v5.0/os/mqtt-v5.0-os.html#_Toc3901007\ntype bits byte\n\nfunc (v bits) Has(b byte) bool { return byte(v)&b == b }\n\nfunc (v bits) fillProp(data []byte, i int, id Ident) int {\n\tif v == 0 {\n\t\treturn 0\n\t}\n\tn := i\n\ti += id.fill(data, i)\n\ti += v.fill(data, i)\n\treturn i - n\n}\n\nfunc (v bits) fill(data []byte, i int) int {\n\tif len(data) >= i+1 {\n\t\tdata[i] = byte(v)\n\t}\n\treturn 1\n}\n\n// fillOpt fills the bits if > 0\nfunc (v bits) fillOpt(data []byte, i int) int {\n\tif v == 0 {\n\t\treturn 0\n\t}\n\treturn v.fill(data, i)\n}\n\nfunc (v *bits) ReadFrom(r io.Reader) (int64, error) {\n\tdata := make([]byte, 1)\n\tif n, err := io.ReadFull(r, data); err != nil {\n\t\treturn int64(n), err\n\t}\n\treturn 1, v.UnmarshalBinary(data)\n}\nfunc (v *bits) UnmarshalBinary(data []byte) error {\n\tif len(data) < 1 {\n\t\treturn ErrMissingData\n\t}\n\t*v = bits(data[0])\n\treturn nil\n}\nfunc (v bits) width() int { return 1 }\nfunc (v *bits) toggle(flag byte, on bool) {\n\tif on {\n\t\t*v = *v | bits(flag)\n\t\treturn\n\t}\n\t*v = *v & bits(^flag)\n}\n\n// https://docs.oasis-open.org/mqtt/mqtt/v5.0/os/mqtt-v5.0-os.html#_Toc3901008\ntype wuint16 uint16\n\nfunc (v wuint16) fillProp(data []byte, i int, id Ident) int {\n\tif v == 0 {\n\t\treturn 0\n\t}\n\tn := i\n\ti += id.fill(data, i)\n\ti += v.fill(data, i)\n\treturn i - n\n}\n\nfunc (v wuint16) fill(data []byte, i int) int {\n\tif len(data) >= i+2 {\n\t\tbinary.BigEndian.PutUint16(data[i:], uint16(v))\n\t}\n\treturn 2\n}\n\nfunc (v *wuint16) UnmarshalBinary(data []byte) error {\n\tif len(data) < 2 {\n\t\treturn ErrMissingData\n\t}\n\t*v = wuint16(binary.BigEndian.Uint16(data))\n\treturn nil\n}\n\nfunc (v wuint16) width() int { return 2 }\n\n// https://docs.oasis-open.org/mqtt/mqtt/v5.0/os/mqtt-v5.0-os.html#_Toc3901009\ntype wuint32 uint32\n\nfunc (v wuint32) fillProp(data []byte, i int, id Ident) int {\n\tif v == 0 {\n\t\treturn 0\n\t}\n\tn := i\n\ti += id.fill(data, i)\n\ti += v.fill(data, i)\n\treturn i - n", "// filler is the part of a wireType that is needed for writing a\n// value, it's implemented by the value types and not only the pointers.\ntype filler interface {\n\tfill(buf []byte, i int) int\n}\n\n// fillPropOf writes the identifier followed by the value at position\n// i and returns the number of bytes that make up the property.  Each\n// type decides on its own if the value is empty and should be left\n// out, before calling this func.\nfunc fillPropOf[T filler](v T, data []byte, i int, id Ident) int {\n\tstart := i\n\ti += id.fill(data, i)\n\ti += v.fill(data, i)\n\treturn i - start\n}\n\n// firstByte represents the first byte in a control packet.\ntype firstByte byte\n\n// String returns a readable string TYPEFLAGS, e.g. PUBLISH d1-r\nfunc (f firstByte) String() string {\n\tvar sb strings.Builder\n\tsb.WriteString(typeNames[byte(f)&0b1111_0000])\n\tsb.WriteString(\" \")\n\tflags := []byte(\"----\")\n\tif bits(f).Has(DUP) {\n\t\tflags[0] = 'd'\n\t}\n\tswitch {\n\tcase bits(f).Has(QoS3):\n\t\tflags[1] = '!' // malformed\n\t\tflags[2] = '!' // malformed\n\tcase bits(f).Has(QoS1):\n\t\tflags[2] = '1'\n\tcase bits(f).Has(QoS2):\n\t\tflags[1] = '2'\n\t}\n\tif bits(f).Has(RETAIN) {\n\t\tflags[3] = 'r'\n\t}\n\tsb.Write(flags)\n\treturn sb.String()\n}\n\n// https://docs.oasis-open.org/mqtt/mqtt/v5.0/os/mqtt-v5.0-os.html#_Toc3901013\ntype UserProp [2]string\n\nfunc (v UserProp) fillProp(data []byte, i int, id Ident) int {\n\tif len(v[0]) == 0 {\n\t\treturn 0\n\t}\n\treturn fillPropOf(v, data, i, id)\n}\nfunc (v UserProp) fill(data []byte, i int) int {\n\ti += wstring(v[0]).fill(data, i)\n\t_ = wstring(v[1]).fill(data, i)\n\treturn v.width()\n}\n\nfunc (v *UserProp) UnmarshalBinary(data []byte) error {\n\tvar key wstring\n\tif err := key.UnmarshalBinary(data); err != nil {\n\t\treturn unmarshalErr(v, \"key\", err.(*Malformed))\n\t}\n\tv[0] = string(key)\n\n\ti := len(v[0]) + 2\n\tvar val wstring\n\tif err := val.UnmarshalBinary(data[i:]); err != nil {\n\t\treturn unmarshalErr(v, \"value\", err.(*Malformed))\n\t}\n\tv[1] = string(val)\n\treturn nil\n}\nfunc (v UserProp) String() string {\n\treturn fmt.Sprintf(\"%s:%s\", v[0], v[1])\n}\nfunc (v UserProp) width() int {\n\treturn wstring(v[0]).width() + wstring(v[1]).width()\n}\n\n// https://docs.oasis-open.org/mqtt/mqtt/v5.0/os/mqtt-v5.0-os.html#_Toc3901010\ntype wstring = bindata\n\n// https://docs.oasis-open.org/mqtt/mqtt/v5.0/os/mqtt-v5.0-os.html#_Toc3901012\ntype bindata []byte\n\nfunc (v bindata) fillProp(data []byte, i int, id Ident) int {\n\tif len(v) == 0 {\n\t\treturn 0\n\t}\n\treturn fillPropOf(v, data, i, id)\n}\nfunc (v bindata) fill(data []byte, i int) int {\n\tif len(data) >= i+v.width() {\n\t\ti += wuint16(len(v)).fill(data, i)\n\t\tcopy(data[i:], []byte(v))\n\t}\n\treturn v.width()\n}\n\nfunc (v *bindata) UnmarshalBinary(data []byte) error {\n\tif len(data) < 2 {\n\t\treturn unmarshalErr(v, \"\", \"missing data\")\n\t}\n\tlength := int(binary.BigEndian.Uint16(data))\n\tif len(data) < length+2 {\n\t\treturn unmarshalErr(v, \"\", \"missing data\")\n\t}\n\tif length == 0 {\n\t\treturn nil\n\t}\n\t*v = make([]byte, length)\n\tcopy(*v, data[2:length+2])\n\treturn nil\n}\n\nfunc (v bindata) width() int {\n\treturn 2 + len(v)\n}\n\ntype rawdata []byte\n\nfunc (v *rawdata) UnmarshalBinary(data []byte) error {\n\t*v = make([]byte, len(data))\n\tcopy(*v, data)\n\treturn nil\n}\nfunc (v rawdata) fill(data []byte, i int) int {\n\tif len(data) >= i+v.width() {\n\t\treturn copy(data[i:], []byte(v))\n\t}\n\treturn v.width()\n}\nfunc (v rawdata) width() int {\n\treturn len(v)\n}\n\n// fillProp is here to fullfill the wireType interface, though it\n// cannot be used as a property as the length is not written. fillProp\n// always panics.\nfunc (v rawdata) fillProp(data []byte, i int, id Ident) int {\n\tpanic(\"cannot use rawdata as property\")\n}\n\n// https://docs.oasis-open.org/mqtt/mqtt/v5.0/os/mqtt-v5.0-os.html#_Toc3901011\ntype vbint uint\n\nfunc (v vbint) fillProp(data []byte, i int, id Ident) int {\n\tif v == 0 {\n\t\treturn 0\n\t}\n\treturn fillPropOf(v, data, i, id)\n}\n\nfunc (v vbint) fill(data []byte, i int) int {\n\tx := v\n\tn := i\n\tfor {\n\t\tencodedByte := byte(x % 128)\n\t\tx = x / 128\n\t\tif x > 0 {\n\t\t\tencodedByte = encodedByte | 128\n\t\t}\n\t\tif i < len(data) {\n\t\t\tdata[i] = encodedByte\n\t\t}\n\t\ti++\n\t\tif x == 0 {\n\t\t\tbreak\n\t\t}\n\t}\n\treturn i - n\n}\n\nfunc (v vbint) width() int {\n\treturn v.fill(_LEN, 0)\n}\n\nfunc (v *vbint) ReadFrom(r io.Reader) (int64, error) {\n\tvar multiplier uint = 1\n\tvar value uint\n\tdata := make([]byte, 1)\n\tvar i int64\n\tfor {\n\t\tif _, err := io.ReadFull(r, data); err != nil {\n\t\t\treturn i, err\n\t\t}\n\t\ti++\n\t\tencodedByte := data[0]\n\t\tvalue += uint(encodedByte) & uint(127) * multiplier\n\t\tif multiplier > 128*128*128 {\n\t\t\treturn i, unmarshalErr(v, \"\", \"size exceeded\")\n\t\t}\n\t\tif encodedByte&128 == 0 {\n\t\t\tbreak\n\t\t}\n\t\tmultiplier = multiplier * 128\n\t}\n\t*v = vbint(value)\n\treturn i, nil\n}\n\n// UnmarshalBinary data, returns nil or *Malformed error\nfunc (v *vbint) UnmarshalBinary(data []byte) error {\n\tif len(data) == 0 {\n\t\treturn unmarshalErr(v, \"\", \"missing data\")\n\t}\n\tvar multiplier uint = 1\n\tvar value uint\n\tfor _, encodedByte := range data {\n\t\tvalue += uint(encodedByte) & uint(127) * multiplier\n\t\tif multiplier > 128*128*128 {\n\t\t\treturn unmarshalErr(v, \"\", \"size exceeded\")\n\t\t}\n\t\tif encodedByte&128 == 0 {\n\t\t\t*v = vbint(value)\n\t\t\treturn nil\n\t\t}\n\t\tmultiplier = multiplier * 128\n\t}\n\treturn unmarshalErr(v, \"\", \"missing data\")\n}\n\n// wire types\ntype (\n\twuint8 = bits // byte\n)\n\ntype wbool bool\n\nfunc (v wbool) fillProp(data []byte, i int, id Ident) int {\n\tif !v {\n\t\treturn 0\n\t}\n\treturn fillPropOf(v, data, i, id)\n}\nfunc (v wbool) fill(data []byte, i int) int {\n\tif len(data) >= i+1 {\n\t\tif v {\n\t\t\tdata[i] = 0x01\n\t\t} else {\n\t\t\tdata[i] = 0x00\n\t\t}\n\t}\n\treturn 1\n}\nfunc (v *wbool) UnmarshalBinary(data []byte) error {\n\tif len(data) < 1 {\n\t\treturn ErrMissingData\n\t}\n\tswitch data[0] {\n\tcase 0:\n\t\t*v = wbool(false)\n\tcase 1:\n\t\t*v = wbool(true)\n\tdefault:\n\t\treturn fmt.Errorf(\"malformed bool\")\n\t}\n\treturn nil\n}\nfunc (v wbool) width() int { return 1 }\n\n// https://docs.oasis-open.org/mqtt/mqtt/v5.0/os/mqtt-v5.0-os.html#_Toc3901007\ntype bits byte\n\nfunc (v bits) Has(b byte) bool { return byte(v)&b == b }\n\nfunc (v bits) fillProp(data []byte, i int, id Ident) int {\n\tif v == 0 {\n\t\treturn 0\n\t}\n\treturn fillPropOf(v, data, i, id)\n}\n\nfunc (v bits) fill(data []byte, i int) int {\n\tif len(data) >= i+1 {\n\t\tdata[i] = byte(v)\n\t}\n\treturn 1\n}\n\n// fillOpt fills the bits if > 0\nfunc (v bits) fillOpt(data []byte, i int) int {\n\tif v == 0 {\n\t\treturn 0\n\t}\n\treturn v.fill(data, i)\n}\n\nfunc (v *bits) ReadFrom(r io.Reader) (int64, error) {\n\tdata := make([]byte, 1)\n\tif n, err := io.ReadFull(r, data); err != nil {\n\t\treturn int64(n), err\n\t}\n\treturn 1, v.UnmarshalBinary(data)\n}\nfunc (v *bits) UnmarshalBinary(data []byte) error {\n\tif len(data) < 1 {\n\t\treturn ErrMissingData\n\t}\n\t*v = bits(data[0])\n\treturn nil\n}\nfunc (v bits) width() int { return 1 }\nfunc (v *bits) toggle(flag byte, on bool) {\n\tif on {\n\t\t*v = *v | bits(flag)\n\t\treturn\n\t}\n\t*v = *v & bits(^flag)\n}\n\n// https://docs.oasis-open.org/mqtt/mqtt/v5.0/os/mqtt-v5.0-os.html#_Toc3901008\ntype wuint16 uint16\n\nfunc (v wuint16) fillProp(data []byte, i int, id Ident) int {\n\tif v == 0 {\n\t\treturn 0\n\t}\n\treturn fillPropOf(v, data, i, id)\n}\n\nfunc (v wuint16) fill(data []byte, i int) int {\n\tif len(data) >= i+2 {\n\t\tbinary.BigEndian.PutUint16(data[i:], uint16(v))\n\t}\n\treturn 2\n}\n\nfunc (v *wuint16) UnmarshalBinary(data []byte) error {\n\tif len(data) < 2 {\n\t\treturn ErrMissingData\n\t}\n\t*v = wuint16(binary.BigEndian.Uint16(data))\n\treturn nil\n}\n\nfunc (v wuint16) width() int { return 2 }\n\n// https://docs.oasis-open.org/mqtt/mqtt/v5.0/os/mqtt-v5.0-os.html#_Toc3901009\ntype wuint32 uint32\n\nfunc (v wuint32) fillProp(data []byte, i int, id Ident) int {\n\tif v == 0 {\n\t\treturn 0\n\t}\n\treturn fillPropOf(v, data, i, id)"}}},
+		{Name: "rf7-builder-reset-when-long", Rule: "R10.4", Where: "String", Edits: []Edit{{"connack.go", ")\n\nfunc NewConnAck() *ConnAck {\n\treturn &ConnAck{\n\t\tfixed: bits(CONNACK),\n\t}\n}\n\ntype ConnAck struct {\n\tfixed      bits\n\tflags      bits // sessionPresent as 7-1 are reserved\n\treasonCode wuint8\n\n\t// properties\n\tsessionExpiryInterval wuint32\n\treceiveMax            wuint16\n\tmaxQoS                wuint8 // 0 or 1, 2\n\tretainAvailable       wbool\n\tmaxPacketSize         wuint32\n\tassignedClientID      wstring\n\ttopicAliasMax         wuint16\n\treasonString          wstring\n\n\tUserProperties\n\twildcardSubAvailable    wbool\n\tsubIdentifiersAvailable wbool\n\tsharedSubAvailable      wbool\n\tserverKeepAlive         wuint16\n\tresponseInformation     wstring\n\tserverReference         wstring\n\tauthMethod              wstring\n\tauthData                bindata\n}\n\nfunc (p *ConnAck) HasFlag(v byte) bool { return p.flags.Has(v) }\n\nfunc (p *ConnAck) SetSessionPresent(v bool) { p.flags.toggle(1, v) }\nfunc (p *ConnAck) SessionPresent() bool     { return p.flags.Has(1) }\n\nfunc (p *ConnAck) SetSessionExpiryInterval(v uint32) { p.sessionExpiryInterval = wuint32(v) }\nfunc (p *ConnAck) SessionExpiryInterval() uint32     { return uint32(p.sessionExpiryInterval) }\n\nfunc (p *ConnAck) SetReceiveMax(v uint16) { p.receiveMax = wuint16(v) }\nfunc (p *ConnAck) ReceiveMax() uint16     { return uint16(p.receiveMax) }\n\nfunc (p *ConnAck) SetMaxQoS(v uint8) { p.maxQoS = wuint8(v) }\nfunc (p *ConnAck) MaxQoS() uint8     { return uint8(p.maxQoS) }\n\nfunc (p *ConnAck) SetRetainAvailable(v bool) { p.retainAvailable = wbool(v) }\nfunc (p *ConnAck) RetainAvailable() bool     { return bool(p.retainAvailable) }\n\nfunc (p *ConnAck) SetMaxPacketSize(v uint32) { p.maxPacketSize = wuint32(v) }\nfunc (p *ConnAck) MaxPacketSize() uint32     { return uint32(p.maxPacketSize) }\n\nfunc (p *ConnAck) SetAssignedClientID(v string) { p.assignedClientID = wstring(v) }\nfunc (p *ConnAck) AssignedClientID() string     { return string(p.assignedClientID) }\n\nfunc (p *ConnAck) SetTopicAliasMax(v uint16) { p.topicAliasMax = wuint16(v) }\nfunc (p *ConnAck) TopicAliasMax() uint16     { return uint16(p.topicAliasMax) }\n\nfunc (p *ConnAck) SetReasonCode(v ReasonCode) { p.reasonCode = wuint8(v) }\nfunc (p *ConnAck) ReasonCode() ReasonCode     { return ReasonCode(p.reasonCode) }\n\nfunc (p *ConnAck) SetReasonString(v string) { p.reasonString = wstring(v) }\nfunc (p *ConnAck) ReasonString() string     { return string(p.reasonString) }\n\nfunc (p *ConnAck) SetWildcardSubAvailable(v bool) { p.wildcardSubAvailable = wbool(v) }\nfunc (p *ConnAck) WildcardSubAvailable() bool     { return bool(p.wildcardSubAvailable) }\n\nfunc (p *ConnAck) SetSubIdentifiersAvailable(v bool) { p.subIdentifiersAvailable = wbool(v) }\nfunc (p *ConnAck) SubIdentifiersAvailable() bool     { return bool(p.subIdentifiersAvailable) }\n\nfunc (p *ConnAck) SetSharedSubAvailable(v bool) { p.sharedSubAvailable = wbool(v) }\nfunc (p *ConnAck) SharedSubAvailable() bool     { return bool(p.sharedSubAvailable) }\n\nfunc (p *ConnAck) SetServerKeepAlive(v uint16) { p.serverKeepAlive = wuint16(v) }\nfunc (p *ConnAck) ServerKeepAlive() uint16     { return uint16(p.serverKeepAlive) }\n\nfunc (p *ConnAck) SetResponseInformation(v string) { p.responseInformation = wstring(v) }\nfunc (p *ConnAck) ResponseInformation() string     { return string(p.responseInformation) }\n\nfunc (p *ConnAck) SetServerReference(v string) { p.serverReference = wstring(v) }\nfunc (p *ConnAck) ServerReference() string     { return string(p.serverReference) }\n\nfunc (p *ConnAck) SetAuthMethod(v string) { p.authMethod = wstring(v) }\nfunc (p *ConnAck) AuthMethod() string     { return string(p.authMethod) }\n\nfunc (p *ConnAck) SetAuthData(v []byte) { p.authData = bindata(v) }\nfunc (p *ConnAck) AuthData() []byte     { return []byte(p.authData) }\n\n// end settings\n// ----------------------------------------\n\nfunc (p *ConnAck) String() string {\n\treturn withReason(p, fmt.Sprintf(\"%s %s %s %v bytes\",\n\t\tfirstByte(p.fixed).String(),\n\t\tconnAckFlags(p.flags),\n\t\tp.assignedClientID,\n\t\tp.width(),\n\t))\n}\n\nfunc withReason(p HasReason, v string) string {\n\tif code := p.ReasonCode(); code >= 0x80 {\n\t\tif p, ok := p.(interface{ ReasonString() string }); ok {\n\t\t\tif r := p.ReasonString(); r != \"\" {\n\t\t\t\treturn fmt.Sprintf(\"%s %s! %s\", v, code.String(), r)\n\t\t\t}\n\t\t}\n\t\treturn fmt.Sprintf(\"%s %s!\", v, code.String())\n\t}\n\treturn v", "\t\"strings\"\n)\n\nfunc NewConnAck() *ConnAck {\n\treturn &ConnAck{\n\t\tfixed: bits(CONNACK),\n\t}\n}\n\ntype ConnAck struct {\n\tfixed      bits\n\tflags      bits // sessionPresent as 7-1 are reserved\n\treasonCode wuint8\n\n\t// properties\n\tsessionExpiryInterval wuint32\n\treceiveMax            wuint16\n\tmaxQoS                wuint8 // 0 or 1, 2\n\tretainAvailable       wbool\n\tmaxPacketSize         wuint32\n\tassignedClientID      wstring\n\ttopicAliasMax         wuint16\n\treasonString          wstring\n\n\tUserProperties\n\twildcardSubAvailable    wbool\n\tsubIdentifiersAvailable wbool\n\tsharedSubAvailable      wbool\n\tserverKeepAlive         wuint16\n\tresponseInformation     wstring\n\tserverReference         wstring\n\tauthMethod              wstring\n\tauthData                bindata\n}\n\nfunc (p *ConnAck) HasFlag(v byte) bool { return p.flags.Has(v) }\n\nfunc (p *ConnAck) SetSessionPresent(v bool) { p.flags.toggle(1, v) }\nfunc (p *ConnAck) SessionPresent() bool     { return p.flags.Has(1) }\n\nfunc (p *ConnAck) SetSessionExpiryInterval(v uint32) { p.sessionExpiryInterval = wuint32(v) }\nfunc (p *ConnAck) SessionExpiryInterval() uint32     { return uint32(p.sessionExpiryInterval) }\n\nfunc (p *ConnAck) SetReceiveMax(v uint16) { p.receiveMax = wuint16(v) }\nfunc (p *ConnAck) ReceiveMax() uint16     { return uint16(p.receiveMax) }\n\nfunc (p *ConnAck) SetMaxQoS(v uint8) { p.maxQoS = wuint8(v) }\nfunc (p *ConnAck) MaxQoS() uint8     { return uint8(p.maxQoS) }\n\nfunc (p *ConnAck) SetRetainAvailable(v bool) { p.retainAvailable = wbool(v) }\nfunc (p *ConnAck) RetainAvailable() bool     { return bool(p.retainAvailable) }\n\nfunc (p *ConnAck) SetMaxPacketSize(v uint32) { p.maxPacketSize = wuint32(v) }\nfunc (p *ConnAck) MaxPacketSize() uint32     { return uint32(p.maxPacketSize) }\n\nfunc (p *ConnAck) SetAssignedClientID(v string) { p.assignedClientID = wstring(v) }\nfunc (p *ConnAck) AssignedClientID() string     { return string(p.assignedClientID) }\n\nfunc (p *ConnAck) SetTopicAliasMax(v uint16) { p.topicAliasMax = wuint16(v) }\nfunc (p *ConnAck) TopicAliasMax() uint16     { return uint16(p.topicAliasMax) }\n\nfunc (p *ConnAck) SetReasonCode(v ReasonCode) { p.reasonCode = wuint8(v) }\nfunc (p *ConnAck) ReasonCode() ReasonCode     { return ReasonCode(p.reasonCode) }\n\nfunc (p *ConnAck) SetReasonString(v string) { p.reasonString = wstring(v) }\nfunc (p *ConnAck) ReasonString() string     { return string(p.reasonString) }\n\nfunc (p *ConnAck) SetWildcardSubAvailable(v bool) { p.wildcardSubAvailable = wbool(v) }\nfunc (p *ConnAck) WildcardSubAvailable() bool     { return bool(p.wildcardSubAvailable) }\n\nfunc (p *ConnAck) SetSubIdentifiersAvailable(v bool) { p.subIdentifiersAvailable = wbool(v) }\nfunc (p *ConnAck) SubIdentifiersAvailable() bool     { return bool(p.subIdentifiersAvailable) }\n\nfunc (p *ConnAck) SetSharedSubAvailable(v bool) { p.sharedSubAvailable = wbool(v) }\nfunc (p *ConnAck) SharedSubAvailable() bool     { return bool(p.sharedSubAvailable) }\n\nfunc (p *ConnAck) SetServerKeepAlive(v uint16) { p.serverKeepAlive = wuint16(v) }\nfunc (p *ConnAck) ServerKeepAlive() uint16     { return uint16(p.serverKeepAlive) }\n\nfunc (p *ConnAck) SetResponseInformation(v string) { p.responseInformation = wstring(v) }\nfunc (p *ConnAck) ResponseInformation() string     { return string(p.responseInformation) }\n\nfunc (p *ConnAck) SetServerReference(v string) { p.serverReference = wstring(v) }\nfunc (p *ConnAck) ServerReference() string     { return string(p.serverReference) }\n\nfunc (p *ConnAck) SetAuthMethod(v string) { p.authMethod = wstring(v) }\nfunc (p *ConnAck) AuthMethod() string     { return string(p.authMethod) }\n\nfunc (p *ConnAck) SetAuthData(v []byte) { p.authData = bindata(v) }\nfunc (p *ConnAck) AuthData() []byte     { return []byte(p.authData) }\n\n// end settings\n// ----------------------------------------\n\nfunc (p *ConnAck) String() string {\n\treturn withReason(p, fmt.Sprintf(\"%s %s %s %v bytes\",\n\t\tfirstByte(p.fixed).String(),\n\t\tconnAckFlags(p.flags),\n\t\tp.assignedClientID,\n\t\tp.width(),\n\t))\n}\n\n// withReason appends the reason code, and the reason string if any,\n// to v for failures, i.e. reason codes >= 0x80.\nfunc withReason(p HasReason, v string) string {\n\tcode := p.ReasonCode()\n\tif code < 0x80 {\n\t\treturn v\n\t}\n\tvar sb strings.Builder\n\tsb.WriteString(v)\n\tif sb.Len() > 120 {\n\t\tsb.Reset()\n\t}\n\tsb.WriteByte(' ')\n\tsb.WriteString(code.String())\n\tsb.WriteByte('!')\n\tif p, ok := p.(interface{ ReasonString() string }); ok {\n\t\tif r := p.ReasonString(); r != \"\" {\n\t\t\tsb.WriteByte(' ')\n\t\t\tsb.WriteString(r)\n\t\t}\n\t}\n\treturn sb.String()"}, {"puback.go", ")\n\n// NewPubAck returns control packet with type PUBACK\nfunc NewPubAck() *PubAck {\n\treturn &PubAck{fixed: bits(PUBACK)}\n}\n\n// A PubAck packet is the response to a Publish packets, depending on\n// the fixed header it can be one of PUBACK, PUBREC, PUBREL or PUBCOMP\ntype PubAck struct {\n\tfixed bits\n\n\tpacketID   wuint16\n\treasonCode wuint8\n\treason     wstring\n\tUserProperties\n}\n\nfunc (p *PubAck) String() string {\n\treturn withReason(p, fmt.Sprintf(\"%s p%v %v bytes\",\n\t\tfirstByte(p.fixed).String(),\n\t\tp.packetID,\n\t\tp.width(),\n\t))", "\t\"strings\"\n)\n\n// NewPubAck returns control packet with type PUBACK\nfunc NewPubAck() *PubAck {\n\treturn &PubAck{fixed: bits(PUBACK)}\n}\n\n// A PubAck packet is the response to a Publish packets, depending on\n// the fixed header it can be one of PUBACK, PUBREC, PUBREL or PUBCOMP\ntype PubAck struct {\n\tfixed bits\n\n\tpacketID   wuint16\n\treasonCode wuint8\n\treason     wstring\n\tUserProperties\n}\n\nfunc (p *PubAck) String() string {\n\treturn withReason(p, fmt.Sprintf(\"%s p%v %v bytes\",\n\t\tfirstByte(p.fixed).String(),\n\t\tp.packetID,\n\t\tp.width(),\n\t))\n}\n\n// ackString returns the short form used by PUBREC and PUBCOMP which\n// always includes the reason code, the reason string follows only if\n// the code is not Success.\nfunc ackString(fixed bits, id wuint16, code wuint8, reason wstring, size int) string {\n\tvar sb strings.Builder\n\tsb.WriteString(firstByte(fixed).String())\n\tfmt.Fprintf(&sb, \" p%v \", id)\n\tsb.WriteString(ReasonCode(code).String())\n\tif code > 0 && len(reason) > 0 {\n\t\tsb.WriteByte(' ')\n\t\tsb.Write(reason)\n\t}\n\tfmt.Fprintf(&sb, \" %v bytes\", size)\n\treturn sb.String()"}, {"pubcomp.go", "\treturn fmt.Sprintf(\"%s p%v %s%s %v bytes\",\n\t\tfirstByte(p.fixed).String(),\n\t\tp.packetID,\n\t\tReasonCode(p.reasonCode).String(),\n\t\tfunc() string {\n\t\t\tif p.reasonCode > 0 && len(p.reason) > 0 {\n\t\t\t\treturn \" \" + string(p.reason)\n\t\t\t}\n\t\t\treturn \"\"\n\t\t}(),\n\t\tp.width(),\n\t)", "\treturn ackString(p.fixed, p.packetID, p.reasonCode, p.reason, p.width())"}, {"pubrec.go", "\treturn fmt.Sprintf(\"%s p%v %s%s %v bytes\",\n\t\tfirstByte(p.fixed).String(),\n\t\tp.packetID,\n\t\tReasonCode(p.reasonCode).String(),\n\t\tfunc() string {\n\t\t\tif p.reasonCode > 0 && len(p.reason) > 0 {\n\t\t\t\treturn \" \" + string(p.reason)\n\t\t\t}\n\t\t\treturn \"\"\n\t\t}(),\n\t\tp.width(),\n\t)", "\treturn ackString(p.fixed, p.packetID, p.reasonCode, p.reason, p.width())"}}},
+		{Name: "rf7-string-built-in-a-builder", Silent: true, Edits: []Edit{{"connack.go", ")\n\nfunc NewConnAck() *ConnAck {\n\treturn &ConnAck{\n\t\tfixed: bits(CONNACK),\n\t}\n}\n\ntype ConnAck struct {\n\tfixed      bits\n\tflags      bits // sessionPresent as 7-1 are reserved\n\treasonCode wuint8\n\n\t// properties\n\tsessionExpiryInterval wuint32\n\treceiveMax            wuint16\n\tmaxQoS                wuint8 // 0 or 1, 2\n\tretainAvailable       wbool\n\tmaxPacketSize         wuint32\n\tassignedClientID      wstring\n\ttopicAliasMax         wuint16\n\treasonString          wstring\n\n\tUserProperties\n\twildcardSubAvailable    wbool\n\tsubIdentifiersAvailable wbool\n\tsharedSubAvailable      wbool\n\tserverKeepAlive         wuint16\n\tresponseInformation     wstring\n\tserverReference         wstring\n\tauthMethod              wstring\n\tauthData                bindata\n}\n\nfunc (p *ConnAck) HasFlag(v byte) bool { return p.flags.Has(v) }\n\nfunc (p *ConnAck) SetSessionPresent(v bool) { p.flags.toggle(1, v) }\nfunc (p *ConnAck) SessionPresent() bool     { return p.flags.Has(1) }\n\nfunc (p *ConnAck) SetSessionExpiryInterval(v uint32) { p.sessionExpiryInterval = wuint32(v) }\nfunc (p *ConnAck) SessionExpiryInterval() uint32     { return uint32(p.sessionExpiryInterval) }\n\nfunc (p *ConnAck) SetReceiveMax(v uint16) { p.receiveMax = wuint16(v) }\nfunc (p *ConnAck) ReceiveMax() uint16     { return uint16(p.receiveMax) }\n\nfunc (p *ConnAck) SetMaxQoS(v uint8) { p.maxQoS = wuint8(v) }\nfunc (p *ConnAck) MaxQoS() uint8     { return uint8(p.maxQoS) }\n\nfunc (p *ConnAck) SetRetainAvailable(v bool) { p.retainAvailable = wbool(v) }\nfunc (p *ConnAck) RetainAvailable() bool     { return bool(p.retainAvailable) }\n\nfunc (p *ConnAck) SetMaxPacketSize(v uint32) { p.maxPacketSize = wuint32(v) }\nfunc (p *ConnAck) MaxPacketSize() uint32     { return uint32(p.maxPacketSize) }\n\nfunc (p *ConnAck) SetAssignedClientID(v string) { p.assignedClientID = wstring(v) }\nfunc (p *ConnAck) AssignedClientID() string     { return string(p.assignedClientID) }\n\nfunc (p *ConnAck) SetTopicAliasMax(v uint16) { p.topicAliasMax = wuint16(v) }\nfunc (p *ConnAck) TopicAliasMax() uint16     { return uint16(p.topicAliasMax) }\n\nfunc (p *ConnAck) SetReasonCode(v ReasonCode) { p.reasonCode = wuint8(v) }\nfunc (p *ConnAck) ReasonCode() ReasonCode     { return ReasonCode(p.reasonCode) }\n\nfunc (p *ConnAck) SetReasonString(v string) { p.reasonString = wstring(v) }\nfunc (p *ConnAck) ReasonString() string     { return string(p.reasonString) }\n\nfunc (p *ConnAck) SetWildcardSubAvailable(v bool) { p.wildcardSubAvailable = wbool(v) }\nfunc (p *ConnAck) WildcardSubAvailable() bool     { return bool(p.wildcardSubAvailable) }\n\nfunc (p *ConnAck) SetSubIdentifiersAvailable(v bool) { p.subIdentifiersAvailable = wbool(v) }\nfunc (p *ConnAck) SubIdentifiersAvailable() bool     { return bool(p.subIdentifiersAvailable) }\n\nfunc (p *ConnAck) SetSharedSubAvailable(v bool) { p.sharedSubAvailable = wbool(v) }\nfunc (p *ConnAck) SharedSubAvailable() bool     { return bool(p.sharedSubAvailable) }\n\nfunc (p *ConnAck) SetServerKeepAlive(v uint16) { p.serverKeepAlive = wuint16(v) }\nfunc (p *ConnAck) ServerKeepAlive() uint16     { return uint16(p.serverKeepAlive) }\n\nfunc (p *ConnAck) SetResponseInformation(v string) { p.responseInformation = wstring(v) }\nfunc (p *ConnAck) ResponseInformation() string     { return string(p.responseInformation) }\n\nfunc (p *ConnAck) SetServerReference(v string) { p.serverReference = wstring(v) }\nfunc (p *ConnAck) ServerReference() string     { return string(p.serverReference) }\n\nfunc (p *ConnAck) SetAuthMethod(v string) { p.authMethod = wstring(v) }\nfunc (p *ConnAck) AuthMethod() string     { return string(p.authMethod) }\n\nfunc (p *ConnAck) SetAuthData(v []byte) { p.authData = bindata(v) }\nfunc (p *ConnAck) AuthData() []byte     { return []byte(p.authData) }\n\n// end settings\n// ----------------------------------------\n\nfunc (p *ConnAck) String() string {\n\treturn withReason(p, fmt.Sprintf(\"%s %s %s %v bytes\",\n\t\tfirstByte(p.fixed).String(),\n\t\tconnAckFlags(p.flags),\n\t\tp.assignedClientID,\n\t\tp.width(),\n\t))\n}\n\nfunc withReason(p HasReason, v string) string {\n\tif code := p.ReasonCode(); code >= 0x80 {\n\t\tif p, ok := p.(interface{ ReasonString() string }); ok {\n\t\t\tif r := p.ReasonString(); r != \"\" {\n\t\t\t\treturn fmt.Sprintf(\"%s %s! %s\", v, code.String(), r)\n\t\t\t}\n\t\t}\n\t\treturn fmt.Sprintf(\"%s %s!\", v, code.String())\n\t}\n\treturn v", "\t\"strings\"\n)\n\nfunc NewConnAck() *ConnAck {\n\treturn &ConnAck{\n\t\tfixed: bits(CONNACK),\n\t}\n}\n\ntype ConnAck struct {\n\tfixed      bits\n\tflags      bits // sessionPresent as 7-1 are reserved\n\treasonCode wuint8\n\n\t// properties\n\tsessionExpiryInterval wuint32\n\treceiveMax            wuint16\n\tmaxQoS                wuint8 // 0 or 1, 2\n\tretainAvailable       wbool\n\tmaxPacketSize         wuint32\n\tassignedClientID      wstring\n\ttopicAliasMax         wuint16\n\treasonString          wstring\n\n\tUserProperties\n\twildcardSubAvailable    wbool\n\tsubIdentifiersAvailable wbool\n\tsharedSubAvailable      wbool\n\tserverKeepAlive         wuint16\n\tresponseInformation     wstring\n\tserverReference         wstring\n\tauthMethod              wstring\n\tauthData                bindata\n}\n\nfunc (p *ConnAck) HasFlag(v byte) bool { return p.flags.Has(v) }\n\nfunc (p *ConnAck) SetSessionPresent(v bool) { p.flags.toggle(1, v) }\nfunc (p *ConnAck) SessionPresent() bool     { return p.flags.Has(1) }\n\nfunc (p *ConnAck) SetSessionExpiryInterval(v uint32) { p.sessionExpiryInterval = wuint32(v) }\nfunc (p *ConnAck) SessionExpiryInterval() uint32     { return uint32(p.sessionExpiryInterval) }\n\nfunc (p *ConnAck) SetReceiveMax(v uint16) { p.receiveMax = wuint16(v) }\nfunc (p *ConnAck) ReceiveMax() uint16     { return uint16(p.receiveMax) }\n\nfunc (p *ConnAck) SetMaxQoS(v uint8) { p.maxQoS = wuint8(v) }\nfunc (p *ConnAck) MaxQoS() uint8     { return uint8(p.maxQoS) }\n\nfunc (p *ConnAck) SetRetainAvailable(v bool) { p.retainAvailable = wbool(v) }\nfunc (p *ConnAck) RetainAvailable() bool     { return bool(p.retainAvailable) }\n\nfunc (p *ConnAck) SetMaxPacketSize(v uint32) { p.maxPacketSize = wuint32(v) }\nfunc (p *ConnAck) MaxPacketSize() uint32     { return uint32(p.maxPacketSize) }\n\nfunc (p *ConnAck) SetAssignedClientID(v string) { p.assignedClientID = wstring(v) }\nfunc (p *ConnAck) AssignedClientID() string     { return string(p.assignedClientID) }\n\nfunc (p *ConnAck) SetTopicAliasMax(v uint16) { p.topicAliasMax = wuint16(v) }\nfunc (p *ConnAck) TopicAliasMax() uint16     { return uint16(p.topicAliasMax) }\n\nfunc (p *ConnAck) SetReasonCode(v ReasonCode) { p.reasonCode = wuint8(v) }\nfunc (p *ConnAck) ReasonCode() ReasonCode     { return ReasonCode(p.reasonCode) }\n\nfunc (p *ConnAck) SetReasonString(v string) { p.reasonString = wstring(v) }\nfunc (p *ConnAck) ReasonString() string     { return string(p.reasonString) }\n\nfunc (p *ConnAck) SetWildcardSubAvailable(v bool) { p.wildcardSubAvailable = wbool(v) }\nfunc (p *ConnAck) WildcardSubAvailable() bool     { return bool(p.wildcardSubAvailable) }\n\nfunc (p *ConnAck) SetSubIdentifiersAvailable(v bool) { p.subIdentifiersAvailable = wbool(v) }\nfunc (p *ConnAck) SubIdentifiersAvailable() bool     { return bool(p.subIdentifiersAvailable) }\n\nfunc (p *ConnAck) SetSharedSubAvailable(v bool) { p.sharedSubAvailable = wbool(v) }\nfunc (p *ConnAck) SharedSubAvailable() bool     { return bool(p.sharedSubAvailable) }\n\nfunc (p *ConnAck) SetServerKeepAlive(v uint16) { p.serverKeepAlive = wuint16(v) }\nfunc (p *ConnAck) ServerKeepAlive() uint16     { return uint16(p.serverKeepAlive) }\n\nfunc (p *ConnAck) SetResponseInformation(v string) { p.responseInformation = wstring(v) }\nfunc (p *ConnAck) ResponseInformation() string     { return string(p.responseInformation) }\n\nfunc (p *ConnAck) SetServerReference(v string) { p.serverReference = wstring(v) }\nfunc (p *ConnAck) ServerReference() string     { return string(p.serverReference) }\n\nfunc (p *ConnAck) SetAuthMethod(v string) { p.authMethod = wstring(v) }\nfunc (p *ConnAck) AuthMethod() string     { return string(p.authMethod) }\n\nfunc (p *ConnAck) SetAuthData(v []byte) { p.authData = bindata(v) }\nfunc (p *ConnAck) AuthData() []byte     { return []byte(p.authData) }\n\n// end settings\n// ----------------------------------------\n\nfunc (p *ConnAck) String() string {\n\treturn withReason(p, fmt.Sprintf(\"%s %s %s %v bytes\",\n\t\tfirstByte(p.fixed).String(),\n\t\tconnAckFlags(p.flags),\n\t\tp.assignedClientID,\n\t\tp.width(),\n\t))\n}\n\n// withReason appends the reason code, and the reason string if any,\n// to v for failures, i.e. reason codes >= 0x80.\nfunc withReason(p HasReason, v string) string {\n\tcode := p.ReasonCode()\n\tif code < 0x80 {\n\t\treturn v\n\t}\n\tvar sb strings.Builder\n\tsb.WriteString(v)\n\tsb.WriteByte(' ')\n\tsb.WriteString(code.String())\n\tsb.WriteByte('!')\n\tif p, ok := p.(interface{ ReasonString() string }); ok {\n\t\tif r := p.ReasonString(); r != \"\" {\n\t\t\tsb.WriteByte(' ')\n\t\t\tsb.WriteString(r)\n\t\t}\n\t}\n\treturn sb.String()"}, {"puback.go", ")\n\n// NewPubAck returns control packet with type PUBACK\nfunc NewPubAck() *PubAck {\n\treturn &PubAck{fixed: bits(PUBACK)}\n}\n\n// A PubAck packet is the response to a Publish packets, depending on\n// the fixed header it can be one of PUBACK, PUBREC, PUBREL or PUBCOMP\ntype PubAck struct {\n\tfixed bits\n\n\tpacketID   wuint16\n\treasonCode wuint8\n\treason     wstring\n\tUserProperties\n}\n\nfunc (p *PubAck) String() string {\n\treturn withReason(p, fmt.Sprintf(\"%s p%v %v bytes\",\n\t\tfirstByte(p.fixed).String(),\n\t\tp.packetID,\n\t\tp.width(),\n\t))", "\t\"strings\"\n)\n\n// NewPubAck returns control packet with type PUBACK\nfunc NewPubAck() *PubAck {\n\treturn &PubAck{fixed: bits(PUBACK)}\n}\n\n// A PubAck packet is the response to a Publish packets, depending on\n// the fixed header it can be one of PUBACK, PUBREC, PUBREL or PUBCOMP\ntype PubAck struct {\n\tfixed bits\n\n\tpacketID   wuint16\n\treasonCode wuint8\n\treason     wstring\n\tUserProperties\n}\n\nfunc (p *PubAck) String() string {\n\treturn withReason(p, fmt.Sprintf(\"%s p%v %v bytes\",\n\t\tfirstByte(p.fixed).String(),\n\t\tp.packetID,\n\t\tp.width(),\n\t))\n}\n\n// ackString returns the short form used by PUBREC and PUBCOMP which\n// always includes the reason code, the reason string follows only if\n// the code is not Success.\nfunc ackString(fixed bits, id wuint16, code wuint8, reason wstring, size int) string {\n\tvar sb strings.Builder\n\tsb.WriteString(firstByte(fixed).String())\n\tfmt.Fprintf(&sb, \" p%v \", id)\n\tsb.WriteString(ReasonCode(code).String())\n\tif code > 0 && len(reason) > 0 {\n\t\tsb.WriteByte(' ')\n\t\tsb.Write(reason)\n\t}\n\tfmt.Fprintf(&sb, \" %v bytes\", size)\n\treturn sb.String()"}, {"pubcomp.go", "\treturn fmt.Sprintf(\"%s p%v %s%s %v bytes\",\n\t\tfirstByte(p.fixed).String(),\n\t\tp.packetID,\n\t\tReasonCode(p.reasonCode).String(),\n\t\tfunc() string {\n\t\t\tif p.reasonCode > 0 && len(p.reason) > 0 {\n\t\t\t\treturn \" \" + string(p.reason)\n\t\t\t}\n\t\t\treturn \"\"\n\t\t}(),\n\t\tp.width(),\n\t)", "\treturn ackString(p.fixed, p.packetID, p.reasonCode, p.reason, p.width())"}, {"pubrec.go", "\treturn fmt.Sprintf(\"%s p%v %s%s %v bytes\",\n\t\tfirstByte(p.fixed).String(),\n\t\tp.packetID,\n\t\tReasonCode(p.reasonCode).String(),\n\t\tfunc() string {\n\t\t\tif p.reasonCode > 0 && len(p.reason) > 0 {\n\t\t\t\treturn \" \" + string(p.reason)\n\t\t\t}\n\t\t\treturn \"\"\n\t\t}(),\n\t\tp.width(),\n\t)", "\treturn ackString(p.fixed, p.packetID, p.reasonCode, p.reason, p.width())"}}},
+		{Name: "rf7-writeto-drops-the-first-byte-of-marshal", Rule: "R10.1", Where: "WriteTo", Edits: []Edit{{"auth.go", "\tb := make([]byte, p.width())\n\tp.fill(b, 0)\n\tn, err := w.Write(b)\n\treturn int64(n), err", "\treturn writeTo(w, p)"}, {"connack.go", "\t// allocate full size of entire packet\n\tb := make([]byte, p.fill(_LEN, 0))\n\tp.fill(b, 0)\n\tn, err := w.Write(b)\n\treturn int64(n), err", "\treturn writeTo(w, p)"}, {"connect.go", "\t// allocate full size of entire packet\n\tb := make([]byte, p.fill(_LEN, 0))\n\tp.fill(b, 0)\n\n\tn, err := w.Write(b)\n\treturn int64(n), err", "\treturn writeTo(w, p)"}, {"disconnect.go", "\tb := make([]byte, p.width())\n\tp.fill(b, 0)\n\tn, err := w.Write(b)\n\treturn int64(n), err", "\treturn writeTo(w, p)"}, {"packet.go", "\t}\n}\n", "\t}\n}\n\n// filler is implemented by all control packets that can be written\n// in wire format. fill follows the same contract as wireType.fill, a\n// nil buffer only calculates the width.\ntype filler interface {\n\tfill(b []byte, i int) int\n}\n\n// marshal returns the packet in wire format. The buffer is allocated\n// to the full size of the entire packet.\nfunc marshal(p filler) []byte {\n\tb := make([]byte, p.fill(_LEN, 0))\n\tp.fill(b, 0)\n\treturn b\n}\n\n// writeTo writes the packet in wire format to the given writer using\n// one call to Write. Shared by the WriteTo methods of all packets.\nfunc writeTo(w io.Writer, p filler) (int64, error) {\n\tn, err := w.Write(marshal(p)[1:])\n\treturn int64(n), err\n}\n"}, {"pingreq.go", "\tb := make([]byte, p.width())\n\tp.fill(b, 0)\n\tn, err := w.Write(b)\n\treturn int64(n), err", "\treturn writeTo(w, p)"}, {"pingresp.go", "\tb := make([]byte, p.width())\n\tp.fill(b, 0)\n\tn, err := w.Write(b)\n\treturn int64(n), err", "\treturn writeTo(w, p)"}, {"puback.go", "\tb := make([]byte, p.fill(_LEN, 0))\n\tp.fill(b, 0)\n\tn, err := w.Write(b)\n\treturn int64(n), err", "\treturn writeTo(w, p)"}, {"pubcomp.go", "\tb := make([]byte, p.fill(_LEN, 0))\n\tp.fill(b, 0)\n\tn, err := w.Write(b)\n\treturn int64(n), err", "\treturn writeTo(w, p)"}, {"publish.go", "\tb := make([]byte, p.fill(_LEN, 0))\n\tp.fill(b, 0)\n\tn, err := w.Write(b)\n\treturn int64(n), err", "\treturn writeTo(w, p)"}, {"pubrec.go", "\tb := make([]byte, p.fill(_LEN, 0))\n\tp.fill(b, 0)\n\tn, err := w.Write(b)\n\treturn int64(n), err", "\treturn writeTo(w, p)"}, {"pubrel.go", "\tb := make([]byte, p.fill(_LEN, 0))\n\tp.fill(b, 0)\n\tn, err := w.Write(b)\n\treturn int64(n), err", "\treturn writeTo(w, p)"}, {"suback.go", "\tb := make([]byte, p.width())\n\tp.fill(b, 0)\n\tn, err := w.Write(b)\n\treturn int64(n), err", "\treturn writeTo(w, p)"}, {"subscribe.go", "\tb := make([]byte, p.width())\n\tp.fill(b, 0)\n\tn, err := w.Write(b)\n\treturn int64(n), err", "\treturn writeTo(w, p)"}, {"unsuback.go", "\tb := make([]byte, p.width())\n\tp.fill(b, 0)\n\tn, err := w.Write(b)\n\treturn int64(n), err", "\treturn writeTo(w, p)"}, {"unsubscribe.go", "\tb := make([]byte, p.width())\n\tp.fill(b, 0)\n\tn, err := w.Write(b)\n\treturn int64(n), err", "\treturn writeTo(w, p)"}}},
+		{Name: "rf7-writeto-through-marshal-helper", Silent: true, Edits: []Edit{{"auth.go", "\tb := make([]byte, p.width())\n\tp.fill(b, 0)\n\tn, err := w.Write(b)\n\treturn int64(n), err", "\treturn writeTo(w, p)"}, {"connack.go", "\t// allocate full size of entire packet\n\tb := make([]byte, p.fill(_LEN, 0))\n\tp.fill(b, 0)\n\tn, err := w.Write(b)\n\treturn int64(n), err", "\treturn writeTo(w, p)"}, {"connect.go", "\t// allocate full size of entire packet\n\tb := make([]byte, p.fill(_LEN, 0))\n\tp.fill(b, 0)\n\n\tn, err := w.Write(b)\n\treturn int64(n), err", "\treturn writeTo(w, p)"}, {"disconnect.go", "\tb := make([]byte, p.width())\n\tp.fill(b, 0)\n\tn, err := w.Write(b)\n\treturn int64(n), err", "\treturn writeTo(w, p)"}, {"packet.go", "\t}\n}\n", "\t}\n}\n\n// filler is implemented by all control packets that can be written\n// in wire format. fill follows the same contract as wireType.fill, a\n// nil buffer only calculates the width.\ntype filler interface {\n\tfill(b []byte, i int) int\n}\n\n// marshal returns the packet in wire format. The buffer is allocated\n// to the full size of the entire packet.\nfunc marshal(p filler) []byte {\n\tb := make([]byte, p.fill(_LEN, 0))\n\tp.fill(b, 0)\n\treturn b\n}\n\n// writeTo writes the packet in wire format to the given writer using\n// one call to Write. Shared by the WriteTo methods of all packets.\nfunc writeTo(w io.Writer, p filler) (int64, error) {\n\tn, err := w.Write(marshal(p))\n\treturn int64(n), err\n}\n"}, {"pingreq.go", "\tb := make([]byte, p.width())\n\tp.fill(b, 0)\n\tn, err := w.Write(b)\n\treturn int64(n), err", "\treturn writeTo(w, p)"}, {"pingresp.go", "\tb := make([]byte, p.width())\n\tp.fill(b, 0)\n\tn, err := w.Write(b)\n\treturn int64(n), err", "\treturn writeTo(w, p)"}, {"puback.go", "\tb := make([]byte, p.fill(_LEN, 0))\n\tp.fill(b, 0)\n\tn, err := w.Write(b)\n\treturn int64(n), err", "\treturn writeTo(w, p)"}, {"pubcomp.go", "\tb := make([]byte, p.fill(_LEN, 0))\n\tp.fill(b, 0)\n\tn, err := w.Write(b)\n\treturn int64(n), err", "\treturn writeTo(w, p)"}, {"publish.go", "\tb := make([]byte, p.fill(_LEN, 0))\n\tp.fill(b, 0)\n\tn, err := w.Write(b)\n\treturn int64(n), err", "\treturn writeTo(w, p)"}, {"pubrec.go", "\tb := make([]byte, p.fill(_LEN, 0))\n\tp.fill(b, 0)\n\tn, err := w.Write(b)\n\treturn int64(n), err", "\treturn writeTo(w, p)"}, {"pubrel.go", "\tb := make([]byte, p.fill(_LEN, 0))\n\tp.fill(b, 0)\n\tn, err := w.Write(b)\n\treturn int64(n), err", "\treturn writeTo(w, p)"}, {"suback.go", "\tb := make([]byte, p.width())\n\tp.fill(b, 0)\n\tn, err := w.Write(b)\n\treturn int64(n), err", "\treturn writeTo(w, p)"}, {"subscribe.go", "\tb := make([]byte, p.width())\n\tp.fill(b, 0)\n\tn, err := w.Write(b)\n\treturn int64(n), err", "\treturn writeTo(w, p)"}, {"unsuback.go", "\tb := make([]byte, p.width())\n\tp.fill(b, 0)\n\tn, err := w.Write(b)\n\treturn int64(n), err", "\treturn writeTo(w, p)"}, {"unsubscribe.go", "\tb := make([]byte, p.width())\n\tp.fill(b, 0)\n\tn, err := w.Write(b)\n\treturn int64(n), err", "\treturn writeTo(w, p)"}}},
 		{Name: "string-result-shortened-after-the-size-print", Rule: "R10.4", Where: "(*Publish).String", Edits: []Edit{{"publish.go", "\treturn withForm(p, fmt.Sprintf(\"%s p%v %s%s %v bytes\",\n\t\tfirstByte(p.fixed).String(),\n\t\tp.packetID,\n\t\ttopic,\n\t\tfunc() string {\n\t\t\tif len(p.correlationData) == 0 {\n\t\t\t\treturn \"\"\n\t\t\t}\n\t\t\treturn \" \" + string(p.correlationData)\n\t\t}(),\n\t\tp.width(),\n\t))", "\treturn withForm(p, shorten(fmt.Sprintf(\"%s p%v %s%s %v bytes\",\n\t\tfirstByte(p.fixed).String(),\n\t\tp.packetID,\n\t\ttopic,\n\t\tfunc() string {\n\t\t\tif len(p.correlationData) == 0 {\n\t\t\t\treturn \"\"\n\t\t\t}\n\t\t\treturn \" \" + string(p.correlationData)\n\t\t}(),\n\t\tp.width(),\n\t)))\n}\n\n// maxLogLine limits the length of the short strings used for\n// logging.\nconst maxLogLine = 120\n\n// shorten returns v cut to maxLogLine, so that a packet with a very\n// long topic name or correlation data does not flood a log.\nfunc shorten(v string) string {\n\tif len(v) > maxLogLine {\n\t\treturn v[:maxLogLine-3] + \"...\"\n\t}\n\treturn v"}}},
 		{Name: "size-by-parts-counts-a-zero-subscription-identifier", Rule: "R10.1", Where: "(*Subscribe).WriteTo", Edits: []Edit{{"subscribe.go", "func (p *Subscribe) width() int {\n\treturn p.fill(_LEN, 0)", "// width returns the size of the encoded packet. It is used by both\n// String and WriteTo, the size is summed up from the parts instead of\n// running the encoder twice.\nfunc (p *Subscribe) width() int {\n\tpropl := p.UserProperties.properties(_LEN, 0)\n\tif p.subscriptionID != nil {\n\t\tpropl += SubscriptionID.width() + p.subscriptionID.width()\n\t}\n\trem := p.packetID.width() + vbint(propl).width() + propl\n\trem += p.payload(_LEN, 0)\n\treturn p.fixed.width() + vbint(rem).width() + rem"}}},
 		{Name: "reason-codes-moved-by-bulk-copy", Silent: true, Edits: []Edit{{"suback.go", "func (p *SubAck) payload(b []byte, i int) int {\n\tn := i\n\tfor j, _ := range p.reasonCodes {\n\t\ti += wuint8(p.reasonCodes[j]).fill(b, i)\n\t}\n\treturn i - n\n}\n\nfunc (p *SubAck) UnmarshalBinary(data []byte) error {\n\tb := &buffer{data: data}\n\tb.get(&p.packetID)\n\tb.getAny(p.propertyMap(), p.appendUserProperty)\n\n\tp.reasonCodes = make([]uint8, len(data)-b.i)\n\n\tfor i, _ := range p.reasonCodes {\n\t\tvar v wuint8\n\t\tb.get(&v)\n\t\tp.reasonCodes[i] = uint8(v)\n\t}\n\treturn b.err", "// payload writes the reason codes, one byte each.\nfunc (p *SubAck) payload(b []byte, i int) int {\n\tn := len(p.reasonCodes)\n\tif len(b) >= i+n {\n\t\tcopy(b[i:], p.reasonCodes)\n\t}\n\treturn n\n}\n\nfunc (p *SubAck) UnmarshalBinary(data []byte) error {\n\tb := &buffer{data: data}\n\tb.get(&p.packetID)\n\tb.getAny(p.propertyMap(), p.appendUserProperty)\n\n\t// the rest of the data is the list of reason codes, one byte each\n\trest := data[b.i:]\n\tp.reasonCodes = make([]uint8, len(rest))\n\tif b.err != nil {\n\t\treturn b.err\n\t}\n\tb.i += copy(p.reasonCodes, rest)\n\treturn nil"}, {"unsuback.go", "func (p *UnsubAck) payload(b []byte, i int) int {\n\tn := i\n\tfor j, _ := range p.reasonCodes {\n\t\ti += wuint8(p.reasonCodes[j]).fill(b, i)\n\t}\n\treturn i - n\n}\n\nfunc (p *UnsubAck) UnmarshalBinary(data []byte) error {\n\tb := &buffer{data: data}\n\tb.get(&p.packetID)\n\tb.getAny(p.propertyMap(), p.appendUserProperty)\n\n\tp.reasonCodes = make([]uint8, len(data)-b.i)\n\n\tfor i, _ := range p.reasonCodes {\n\t\tvar v wuint8\n\t\tb.get(&v)\n\t\tp.reasonCodes[i] = uint8(v)\n\t}\n\treturn b.err", "// payload writes the reason codes, one byte each.\nfunc (p *UnsubAck) payload(b []byte, i int) int {\n\tn := len(p.reasonCodes)\n\tif len(b) >= i+n {\n\t\tcopy(b[i:], p.reasonCodes)\n\t}\n\treturn n\n}\n\nfunc (p *UnsubAck) UnmarshalBinary(data []byte) error {\n\tb := &buffer{data: data}\n\tb.get(&p.packetID)\n\tb.getAny(p.propertyMap(), p.appendUserProperty)\n\n\t// the rest of the data is the list of reason codes, one byte each\n\trest := data[b.i:]\n\tp.reasonCodes = make([]uint8, len(rest))\n\tif b.err != nil {\n\t\treturn b.err\n\t}\n\tb.i += copy(p.reasonCodes, rest)\n\treturn nil"}}},
@@ -1161,6 +1166,11 @@ func textReachesReturn(p *Prog, fn *ssa.Function, v ssa.Value, depth int, seen m
 									if textReachesReturn(p, fn, call, depth+1, seen) {
 										reaches = true
 									}
+								} else if ok && AsFmtCall(call) != nil && len(call.Call.Args) > 0 {
+									// fmt.Fprintf(&sb, …, text): the text goes into a local builder
+									if builderTextReaches(p, fn, call.Call.Args[0], depth, seen) {
+										reaches = true
+									}
 								}
 							}
 						}
@@ -1181,6 +1191,16 @@ func textReachesReturn(p *Prog, fn *ssa.Function, v ssa.Value, depth int, seen m
 				if bi, ok := x.Call.Value.(*ssa.Builtin); ok && bi.Name() == "len" {
 					continue
 				}
+				// sb.WriteString(text) on a local builder whose String() reaches the result
+				if sc != nil && len(x.Call.Args) == 2 && x.Call.Args[1] == v {
+					switch fullName(sc) {
+					case "(*strings.Builder).WriteString", "(*bytes.Buffer).WriteString":
+						if builderTextReaches(p, fn, x.Call.Args[0], depth, seen) {
+							reaches = true
+							continue
+						}
+					}
+				}
 				return false
 			}
 			for k, a := range x.Call.Args {
@@ -1194,6 +1214,42 @@ func textReachesReturn(p *Prog, fn *ssa.Function, v ssa.Value, depth int, seen m
 			if textReachesReturn(p, fn, x, depth+1, seen) {
 				reaches = true
 			}
+		}
+	}
+	return reaches
+}
+
+// builderTextReaches: w is (the address of, possibly as an io.Writer) a local strings.Builder / bytes.Buffer that is
+// only written to, never reset or truncated, and whose String() reaches fn's result whole.
+func builderTextReaches(p *Prog, fn *ssa.Function, w ssa.Value, depth int, seen map[ssa.Value]bool) bool {
+	if mi, ok := w.(*ssa.MakeInterface); ok {
+		w = mi.X
+	}
+	al, ok := w.(*ssa.Alloc)
+	if !ok || al.Referrers() == nil {
+		return false
+	}
+	reaches := false
+	for _, r := range *al.Referrers() {
+		switch x := r.(type) {
+		case *ssa.DebugRef, *ssa.MakeInterface:
+		case *ssa.Call:
+			sc := x.Call.StaticCallee()
+			if sc == nil || len(x.Call.Args) == 0 || x.Call.Args[0] != ssa.Value(al) {
+				return false
+			}
+			switch fullName(sc) {
+			case "(*strings.Builder).String", "(*bytes.Buffer).String":
+				if textReachesReturn(p, fn, x, depth+1, seen) {
+					reaches = true
+				}
+			case "(*strings.Builder).WriteString", "(*strings.Builder).WriteByte", "(*strings.Builder).WriteRune", "(*strings.Builder).Write", "(*strings.Builder).Grow", "(*strings.Builder).Len",
+				"(*bytes.Buffer).WriteString", "(*bytes.Buffer).WriteByte", "(*bytes.Buffer).WriteRune", "(*bytes.Buffer).Write", "(*bytes.Buffer).Grow", "(*bytes.Buffer).Len":
+			default:
+				return false // Reset, Truncate, handed elsewhere
+			}
+		default:
+			return false
 		}
 	}
 	return reaches
@@ -2728,6 +2784,32 @@ func checkWriteToDelegated(p *Prog, c *Check, fn *ssa.Function, w *ssa.Parameter
 		return nil, true
 	}
 	buf, ok := wr.Call.Args[0].(*ssa.MakeSlice)
+	var marshalRet ssa.Instruction
+	if mcall, isCall := wr.Call.Args[0].(*ssa.Call); !ok && isCall && !mcall.Call.IsInvoke() {
+		// `w.Write(marshal(p))`: a straight-line function of the library that makes the buffer, fills it and returns it;
+		// its result has no other use than the Write
+		if mh := mcall.Call.StaticCallee(); mh != nil && p.inMQ(mh) && len(mh.Blocks) == 1 {
+			qi2 := -1
+			for k, a := range mcall.Call.Args {
+				if a == ssa.Value(hq) {
+					qi2 = k
+				}
+			}
+			only := true
+			for _, r := range *mcall.Referrers() {
+				if _, isD := r.(*ssa.DebugRef); !isD && r != ssa.Instruction(wr) {
+					only = false
+				}
+			}
+			if mret, isRet := terminator(mh.Blocks[0]).(*ssa.Return); isRet && len(mret.Results) == 1 && qi2 >= 0 && qi2 < len(mh.Params) && only {
+				if ms, isMs := mret.Results[0].(*ssa.MakeSlice); isMs {
+					buf, ok = ms, true
+					hq = mh.Params[qi2]
+					marshalRet = mret
+				}
+			}
+		}
+	}
 	if !ok || buf.Cap != buf.Len {
 		c.Bad("R10.1", cons, posOf(p, wr), "the argument of Write in "+qname(H)+" is not the freshly made buffer itself")
 		return nil, true
@@ -2762,7 +2844,7 @@ func checkWriteToDelegated(p *Prog, c *Check, fn *ssa.Function, w *ssa.Parameter
 	}
 	var real *ssa.Call
 	for _, r := range *buf.Referrers() {
-		if _, isD := r.(*ssa.DebugRef); isD || r == ssa.Instruction(wr) {
+		if _, isD := r.(*ssa.DebugRef); isD || r == ssa.Instruction(wr) || (marshalRet != nil && r == marshalRet) {
 			continue
 		}
 		rc, m2, rargs := onFiller(valueOf(r))
@@ -2779,7 +2861,9 @@ func checkWriteToDelegated(p *Prog, c *Check, fn *ssa.Function, w *ssa.Parameter
 		}
 		real = rc
 	}
-	if real == nil || !real.Block().Dominates(wr.Block()) || (real.Block() == wr.Block() && instrIndex(real) > instrIndex(wr)) {
+	if marshalRet != nil && real != nil && real.Block() == marshalRet.Block() {
+		// filled in the straight-line helper, before its return
+	} else if real == nil || !real.Block().Dominates(wr.Block()) || (real.Block() == wr.Block() && instrIndex(real) > instrIndex(wr)) {
 		c.Bad("R10.1", cons, posOf(p, buf), "the buffer is not filled before it is written")
 		return nil, true
 	}
